@@ -125,12 +125,10 @@ func resetEnv(seed int64) {
 func newWorld(cfg InstCfg) (*World, error) {
 	resetEnv(1)
 	w := &World{cfg: cfg}
-	if cfg.DataDir != "" {
-		w.fs = verifrt.NewMemFS()
-		verifrt.SetFS(w.fs)
-	} else {
-		verifrt.SetFS(nil)
-	}
+	// always an in-memory file system: even without a data directory the server writes files (SAVE puts a snapshot
+	// under ./snapshots), and nothing a check does may touch the real disk or leak from one run into the next
+	w.fs = verifrt.NewMemFS()
+	verifrt.SetFS(w.fs)
 	in, err := newInstance(cfg)
 	if err != nil {
 		return nil, err
